@@ -448,13 +448,13 @@ def gen(rng, tier):
             L.append("setd %s %016x" % (n, b))
         L += ["setb %s 0" % n, "setb %s 1" % n]
     # ---- 5. random patterns
-    nrand = 15000 if quick else 900000
+    nrand = 40000 if quick else 900000
     for _ in range(nrand):
         L.append("get i%d" % rand_i64(rng))
         L.append("get u%d" % rand_u64(rng))
         L.append("get d%016x" % rand_dbits(rng))
         L.append("get d%016x" % rand_dbits(rng))
-    nstr = 6000 if quick else 200000
+    nstr = 12000 if quick else 200000
     for _ in range(nstr):
         t = rand_text(rng)
         L.append("get " + snode(t))
@@ -470,7 +470,7 @@ def gen(rng, tier):
         elif k < 0.75:
             L.append("parseu64 " + hexs(t))
     # decimal <-> binary: focused strtod validation (short decimals, many digits, ties, subnormal range)
-    nfd = 5000 if quick else 150000
+    nfd = 10000 if quick else 150000
     for _ in range(nfd):
         k = rng.random()
         if k < 0.3:
@@ -494,12 +494,12 @@ def gen(rng, tier):
         if b"inf" in t or b"nan" in t:
             continue
         L.append("libc strtod " + hexs(t))
-    nconv = 5000 if quick else 300000
+    nconv = 10000 if quick else 300000
     for _ in range(nconv):
         L.append("libc i2d %d" % rand_i64(rng))
         L.append("libc u2d %d" % rand_u64(rng))
     # ---- 6. random increments and histories
-    ninc = 8000 if quick else 300000
+    ninc = 15000 if quick else 300000
     for _ in range(ninc):
         node = ("i%d" % rand_i64(rng)) if rng.chance(0.5) else ("u%d" % rand_u64(rng))
         k = rng.choice([1, 1, 1, 2, 4, 8])
@@ -507,7 +507,7 @@ def gen(rng, tier):
         for _ in range(k):
             vs.append(rand_i64(rng) if rng.chance(0.7) else rng.choice([1, -1, I64MAX, I64MIN, I64MIN + 1, 2, -2]))
         L.append("inc %s %s" % (node, " ".join(str(v) for v in vs)))
-    nset = 2000 if quick else 60000
+    nset = 4000 if quick else 60000
     for _ in range(nset):
         node = rng.choice(kinds + ["i%d" % rand_i64(rng), "u%d" % rand_u64(rng), "d%016x" % rand_dbits(rng)])
         k = rng.randrange(5)
